@@ -90,7 +90,7 @@ fn server_murmur3_token(key: &[u8]) -> Option<i64> {
 /// The server's CDC rule (ScyllaDB `cdc_partitioner::get_token`): minimum token unless the key is exactly 16 bytes,
 /// else the first 8 bytes as a big-endian i64 (normalised). The driver is only claimed to agree on the domain
 /// (16-byte stream ids) and on keys shorter than 8 bytes; `None` = lengths on which the driver is known to differ.
-fn server_cdc_token(key: &[u8]) -> Option<i64> {
+pub(crate) fn server_cdc_token(key: &[u8]) -> Option<i64> {
     if key.len() == 16 {
         let t = i64::from_be_bytes(key[..8].try_into().unwrap());
         Some(if t == i64::MIN { i64::MAX } else { t })
